@@ -39,7 +39,7 @@ var pureStdlib = map[string]bool{
 	"(*gopkg.in/src-d/go-errors.v1.Kind).New": true, "gopkg.in/src-d/go-errors.v1.NewKind": true, "(*gopkg.in/src-d/go-errors.v1.Kind).Is": true,
 	"(time.Duration).String": true, "(time.Duration).Seconds": true, "(time.Time).Sub": true, "time.Since": true, "(time.Time).Unix": true, "(time.Time).UnixMicro": true, "(time.Time).Hour": true, "(time.Time).Minute": true,
 	"(time.Time).Second": true, "(time.Time).Nanosecond": true, "(time.Time).IsZero": true, "(time.Time).Equal": true, "(time.Time).Before": true, "(time.Time).After": true,
-	"(*github.com/cockroachdb/apd/v3.Decimal).Cmp": true, "(*github.com/cockroachdb/apd/v3.Decimal).String": true,
+	"(*github.com/cockroachdb/apd/v3.Decimal).Cmp": true, "(*github.com/cockroachdb/apd/v3.Decimal).String": true, "(*github.com/cockroachdb/apd/v3.Decimal).Text": true,
 	"(github.com/shopspring/decimal.Decimal).String": true, "(github.com/shopspring/decimal.Decimal).Cmp": true,
 	"(github.com/shopspring/decimal.Decimal).IntPart": true, "(github.com/shopspring/decimal.Decimal).Equal": true,
 	"github.com/shopspring/decimal.NewFromInt": true, "github.com/shopspring/decimal.NewFromFloat": true, "github.com/shopspring/decimal.NewFromString": true,
@@ -285,6 +285,11 @@ func (vc *VC) call(in ssa.Instruction, c *ssa.CallCommon, st *State, reach Term)
 		}
 		if r, ok := vc.bytesStdlib(calleeName(f), args, st, reach, rt, pos); ok {
 			return r
+		}
+		if n := calleeName(f); (n == "strconv.FormatInt" || n == "strconv.FormatUint") && len(args) == 2 && args[1].t == "10" {
+			// the decimal rendering of an integer: the same function of the (mathematical) value as strconv.Itoa
+			vc.assume("assumed: strconv.FormatInt(x, 10), strconv.FormatUint(x, 10) and strconv.Itoa(x) are one function of the integer value (its decimal rendering)")
+			return vc.detApply("strconv.Itoa", args[:1], rt)
 		}
 		if detStdlib[calleeName(f)] {
 			return vc.detApply(calleeName(f), args, rt)
